@@ -223,7 +223,7 @@ def run(ctx, rep):
             if not prs:
                 rep.bad("R-THIN-REFUSE", b["key"], "no panicking path found in into_thin (the length check is gone)", F.loc(b), tag)
             else:
-                bad = [p for p in prs if not (vget(p.vec, "dec") == 1 and vget(p.vec, "own") == -1)]
+                bad = [p for p in prs if not (c04.released(p.vec) == 1 and vget(p.vec, "own") == -1)]
                 if bad:
                     rep.bad("R-THIN-REFUSE", b["key"], balance.path_report(F, b, bad[0], "when the conversion is refused the Arc must be released (one decrement, one owner retired)"), F.loc(b), tag)
                 else:
